@@ -48,7 +48,7 @@ def main():
             meta["baseline_with_patch"] = ob.strip().split("\n")[0]
             meta["baseline_ok"] = rcb == 0
         t0 = time.time()
-        envc = dict(os.environ, VERIF_REPO=wt)
+        envc = dict(os.environ, VERIF_REPO=wt, VERIF_EVIDENCE_DIR=os.path.join(VERIF, "seeded", sid, "evidence"))
         rcc, oc = sh(f"bin/check {prop} --tier {tier}", env=envc, cwd=VERIF)
         meta["check_rc_patched"] = rcc
         meta["check_wall_s"] = round(time.time() - t0, 1)
